@@ -828,7 +828,7 @@ class LogicalLinkController(object):
             raise err.Error(errno.EOPNOTSUPP)
         while True:
             client = socket.accept()
-            sap = self.sap[client.addr]
+            sap = None if client.addr is None else self.sap[client.addr]
             if sap is None:
                 raise err.Error(errno.EPIPE)  # link terminated meanwhile
             sap.insert_socket(client)
